@@ -587,7 +587,10 @@ func (c *wouldApplyContext) wouldApplyLookupContext1(data tables.SequenceContext
 
 func (c *wouldApplyContext) wouldApplyLookupContext2(data tables.SequenceContextFormat2, index int, glyphID GID) bool {
 	class, _ := data.ClassDef.Class(gID(glyphID))
-	ruleSet := data.ClassSeqRuleSet[class]
+	var ruleSet tables.SequenceRuleSet
+	if int(class) < len(data.ClassSeqRuleSet) {
+		ruleSet = data.ClassSeqRuleSet[class]
+	}
 	return c.wouldApplyRuleSet(ruleSet, matchClass(data.ClassDef))
 }
 
@@ -624,7 +627,10 @@ func (c *wouldApplyContext) wouldApplyLookupChainedContext1(data tables.ChainedS
 
 func (c *wouldApplyContext) wouldApplyLookupChainedContext2(data tables.ChainedSequenceContextFormat2, index int, glyphID GID) bool {
 	class, _ := data.InputClassDef.Class(gID(glyphID))
-	ruleSet := data.ChainedClassSeqRuleSet[class]
+	var ruleSet tables.ChainedSequenceRuleSet
+	if int(class) < len(data.ChainedClassSeqRuleSet) {
+		ruleSet = data.ChainedClassSeqRuleSet[class]
+	}
 	return c.wouldApplyChainRuleSet(ruleSet, matchClass(data.InputClassDef))
 }
 
